@@ -527,6 +527,8 @@ def _drop_plan(rng, frames):
            "max_delay": 8, "peers": peers, "inputs_by_frame": rng.choice([0, 4])}
     n = len(peers)
     at = rng.randrange(5, frames - 10)
+    if rng.random() < 0.2:
+        at = rng.choice([0, 0, 1, 2])       # the victim goes before (almost) any of its input has arrived
     p = {"seed": rng.randrange(1 << 30), "frames": frames + 200, "cfg": cfg,
          "tick_ms": [16] * n, "jitter": rng.choice([0, 3]),
          "lat_lo": rng.choice([2, 10, 40]), "lat_hi": rng.choice([40, 60, 120]),
